@@ -173,6 +173,12 @@ def step_event(ob, q, p, hid, G, srn):
         except AttributeError:
             content = None           # the parser's internals were refactored: this observation is unavailable
             break
+        except MachineryError:
+            raise
+        except Exception:  # noqa: BLE001
+            # the library fails on its OWN cached chart for k (e.g. a cached column list that was cut short by a later
+            # query): the answer that cache entry will give to a later query is not the fresh one
+            content = False
     e["shared"] = bool(shared)
     if content is not None:
         e["content"] = bool(content)
